@@ -115,6 +115,22 @@ def _run_case(case, acc, aut=None, report=None):
             c.pop('mode_seq')
             c['reused_automaton'] = True
             _run_case(c, acc, aut, report=case)
+        # ownership of a variable changed in place, then CPre again
+        for v, dst, c2 in fam.ownership_changes(aut, case):
+            aut.build()
+            gm2 = fam.GameModel(aut, c2)
+            E, S = aut.action['env'], aut.action['sys']
+            for fs in _sets(c2, gm2, aut)[:16]:
+                got = gm2.state_table(fx.step(E, S, gm2.srd.from_rows(fs),
+                                              aut))
+                acc.count('step_calls')
+                if got != gm2.cpre(fs):
+                    acc.violation(
+                        'step_mismatch_after_ownership_change', case,
+                        detail=dict(moved=v, to=dst, vars=gm2.svars,
+                                    target=sorted(fs), got=sorted(got),
+                                    ref=sorted(gm2.cpre(fs))))
+                    return
         return
     if aut is None:
         aut = fam.build_game(case)
